@@ -38,6 +38,8 @@ def proj_fn(pr, inverse_too=False):
         return f
     if kind == "affine":
         g = lambda e, n: ((e - p[1]) / p[0], (n - p[3]) / p[2])  # noqa: E731
+    elif kind == "cube":
+        g = lambda e, n: (np.cbrt(np.asarray(e) * p[0]), n)  # noqa: E731   (monotone, NON-linear: e -> e^3 / k)
     else:
         den = 1 + p[0] * p[0]
         g = lambda e, n: ((e - p[0] * n) / den, (n + p[0] * e) / den)  # noqa: E731
@@ -69,6 +71,11 @@ def mk_grid(coefs, rdef, region, shape, spacing, adjust, pixel, extra, coords, p
 
 
 def mk_profile(coefs, p1, p2, size, proj, extra, dims, names, kind):
+    if proj is not None and proj[0] == "cube":
+        # non-linear invertible projection: the model's rational inverse does not exist (cube root); decided by the oracle alone
+        d = {"fn": "profile", "kind": kind + "-nonlinear", "args": [coefs, p1, p2, size, proj, extra, dims, names], "op": "check_region [ 0 1 0 1 ]"}
+        d["key"] = repr(d["args"])
+        return d
     return {"fn": "profile", "kind": kind, "args": [coefs, p1, p2, size, proj, extra, dims, names],
             "op": f"bg_profile {C.enc(coefs)} {C.enc(list(p1))} {C.enc(list(p2))} {size} {C.enc(proj)} {C.enc(extra or [])} "
                   f"{C.enc(None if dims is None else list(dims))} {C.enc(names)}"}
@@ -103,6 +110,7 @@ def corpus():
           mk_grid(ONE, None, [0.0, 4.0, 0.0, 2.0], (2, 2), None, "spacing", False, None, None, None, None, ["a", "b"], "bad-name-count"),
           mk_profile(ONE, (0.0, 0.0), (4.0, 2.0), 3, ["shear", [0.5]], [7.0], None, None, "corpus-profile"),
           mk_profile(ONE * 2, (1.0, -1.0), (1.0, 5.0), 5, None, None, ("y", "x"), ["u", "v"], "corpus-profile-vertical"),
+          mk_profile(ONE, (-2.0, 1.0), (4.0, 3.0), 7, ["cube", [16.0]], None, None, None, "corpus-profile"),
           mk_scatter(ONE, [0.0, 4.0, 0.0, 2.0], None, 5, 0, None, None, None, None, "corpus-scatter")]
     for k, which in enumerate(FITTED):
         cs.append(mk_fitted(which, 11 + k, (3, 4), None, "fitted-" + which))
@@ -174,7 +182,10 @@ def generate(rng, tier):
             p2 = (rng.randint(-40, 40) / 4.0, rng.randint(-40, 40) / 4.0)
             size = rng.choice([1, 2, 3, 5, 9, 0]) if rng.random() < 0.4 else rng.randint(1, 12)
             extra = None if rng.random() < 0.7 else [rng.randint(-8, 8) / 2.0]
-            cs.append(mk_profile(coefs, p1, p2, size, rand_proj(rng, invertible=True), extra, dims, names, "profile"))
+            pr = rand_proj(rng, invertible=True)
+            if rng.random() < 0.25:
+                pr = ["cube", [rng.choice([1.0, 16.0])]]
+            cs.append(mk_profile(coefs, p1, p2, size, pr, extra, dims, names, "profile"))
         else:
             extra = None if rng.random() < 0.7 else [rng.randint(-8, 8) / 2.0]
             rdef, region = (reg, None) if rng.random() < 0.5 else (None, reg)
@@ -346,8 +357,8 @@ def impl(case):
 
 
 def compare(case, io, mo):
-    if case["fn"] in ("real", "fitted"):
-        return "ok"      # fitted gridders: decided by the oracle on the implementation
+    if case["fn"] in ("real", "fitted") or case.get("kind", "").endswith("-nonlinear"):
+        return "ok"      # fitted gridders / non-rational projections: decided by the oracle on the implementation
     r = C.std_compare(io, mo, tol=1e-9)
     if r != "ok" and case["fn"] == "grid" and not C.is_err(io) and case["args"][4] is not None:
         import props.c07 as c07
